@@ -54,19 +54,20 @@ def run(ctx):
                 "legacy-scan-selftest", expect_violation=True, workers=4)
     ctx.tlc_gen("MC_KvTenants", GEN.format(ids="{1}", names="NamesFull", maxt=2, maxw=2, reject="FALSE", emit="", inv="NoMixingScan NoMixingList"),
                 "separator-selftest", expect_violation=True, workers=4)
+    # (script-emitting runs use one worker: strict BFS, the same representative histories every run)
     # scripts: every pair of candidate ids x every interleaving of <= 2/4 writes (one script per transition of the
     # abstract state graph); the registry of the model accepts everything so that every write is attempted
     scripts = ctx.tlc_gen("MC_KvTenants", GEN.format(ids="{1}", names="NamesFull", maxt=2, maxw=2 if q else 4, reject="FALSE",
                                                       emit="ACTION_CONSTRAINT EmitWrites", inv=""),
-                          "pairs", workers=4, timeout=2400)
+                          "pairs", workers=1, timeout=2400)
     # triples over the names that are prefixes of one another / adjacent in byte order / contain the separator
     scripts += ctx.tlc_gen("MC_KvTenants", GEN.format(ids="{1}", names="NamesCore", maxt=3, maxw=2 if q else 4, reject="FALSE",
                                                        emit="ACTION_CONSTRAINT EmitWrites", inv=""),
-                           "triples", workers=4, timeout=2400)
+                           "triples", workers=1, timeout=2400)
     # two ids per tenant (id order inside a tenant's key range) on separator-free names
     scripts += ctx.tlc_gen("MC_KvTenants", GEN.format(ids="{1, 2}", names="NamesPlain", maxt=2, maxw=2 if q else 3, reject="FALSE",
                                                        emit="ACTION_CONSTRAINT EmitWrites", inv=DESIGN_INV),
-                           "plain2ids", workers=4, timeout=2400)
+                           "plain2ids", workers=1, timeout=2400)
     ctx.assume("tenant ids the system accepts = ids for which TenantManager::create_tenant returns Ok; writes reach the store "
                "only through PersistenceManager, which refuses unregistered ids",
                "candidate ids: every string of length <= 2 over {a, b, ':'}, plus 'a:n', 'a0' (and 'n', 'an' in the separator-free set); "
